@@ -38,6 +38,8 @@ static struct {
 } S;
 
 static void event_cb(void *cookie);
+static void tk_register(struct loopthr *lt);
+static void noise_cb(void *cookie);
 
 static _Atomic long failed_regs;
 
@@ -153,6 +155,20 @@ static void event_cb(void *cookie)
 	if (mt_phase || actions_left[lt->idx] <= 0)
 		return;
 	actions_left[lt->idx]--;
+	if (rng_pct(&lt->rng, 12) && noise_fd[lt->idx] != NULL) {
+		/* drop the descriptor that posters keep making readable and register a fresh struct for it: its readiness may be in the same batch as this kick */
+		iv_fd_unregister(noise_fd[lt->idx]);
+		memset(noise_fd[lt->idx], 0xDD, sizeof(struct iv_fd));
+		free(noise_fd[lt->idx]);
+		noise_fd[lt->idx] = malloc(sizeof(struct iv_fd));
+		IV_FD_INIT(noise_fd[lt->idx]);
+		noise_fd[lt->idx]->fd = noise[lt->idx][0];
+		noise_fd[lt->idx]->cookie = lt;
+		noise_fd[lt->idx]->handler_in = noise_cb;
+		iv_fd_register(noise_fd[lt->idx]);
+	}
+	if (rng_pct(&lt->rng, 25))
+		tk_register(lt);
 	k = rng_n(&lt->rng, 100);
 	if (k < 18) {			/* post again: own event (task path) or any event */
 		int j = rng_pct(&lt->rng, 50) ? i : (int)rng_n(&lt->rng, MAXEV);
@@ -187,6 +203,10 @@ static void event_cb(void *cookie)
 	}
 }
 
+static void noise_cb(void *cookie);
+static struct iv_timer *far_timer[MAXLOOP];
+static void far_cb(void *c) { struct loopthr *lt = c; free(far_timer[lt->idx]); far_timer[lt->idx] = NULL; }
+
 static void noise_cb(void *cookie)
 {
 	struct loopthr *lt = cookie;
@@ -216,6 +236,19 @@ static void scn_setup(struct loopthr *lt)
 	for (i = 0; i < n; i++)
 		slot_register(lt);
 	actions_left[lt->idx] = 10 + rng_n(&lt->rng, 60);
+	if (rng_pct(&lt->rng, 60)) {
+		/* a far timer: with an unchanged earliest deadline over several wake-ups the timer-descriptor path engages */
+		far_timer[lt->idx] = malloc(sizeof(struct iv_timer));
+		IV_TIMER_INIT(far_timer[lt->idx]);
+		iv_validate_now();
+		far_timer[lt->idx]->expires = iv_now;
+		far_timer[lt->idx]->expires.tv_sec += 30 + rng_n(&lt->rng, 100);
+		far_timer[lt->idx]->cookie = lt;
+		far_timer[lt->idx]->handler = far_cb;
+		iv_timer_register(far_timer[lt->idx]);
+	}
+	if (rng_pct(&lt->rng, 50))
+		tk_register(lt);
 }
 
 static void scn_ctl(struct loopthr *lt, char cmd)
@@ -223,6 +256,11 @@ static void scn_ctl(struct loopthr *lt, char cmd)
 	int i;
 	if (cmd != 'T')
 		return;
+	if (far_timer[lt->idx] != NULL) {
+		iv_timer_unregister(far_timer[lt->idx]);
+		free(far_timer[lt->idx]);
+		far_timer[lt->idx] = NULL;
+	}
 	if (noise_fd[lt->idx] != NULL) {
 		iv_fd_unregister(noise_fd[lt->idx]);
 		free(noise_fd[lt->idx]);
@@ -242,6 +280,71 @@ static void scn_after_main(struct loopthr *lt)
 }
 
 static int scn_next_phase(void) { return 0; }
+
+/* tasks registered by the owners (C06 across threads): registered by one loop, must run once, in that loop's thread */
+#define MAXTK 64
+struct tkslot { struct iv_task t; int owner; _Atomic int state; int chain; };	/* state: 0 free, 1 registered, 2 ran */
+static struct tkslot tks[MAXTK];
+static _Atomic long tasks_registered, tasks_ran;
+
+static void tk_cb(void *c)
+{
+	struct tkslot *k = c;
+	struct loopthr *lt = &loops[k->owner];
+	if (!pthread_equal(pthread_self(), lt->th))
+		mon_viol("C06", "task-wrong-thread", g_method, "a task registered by loop %d ran in another thread", k->owner);
+	if (atomic_exchange(&k->state, 2) != 1)
+		mon_viol("C06", "task-ran-unregistered", g_method, "a task of loop %d ran although it was not registered (or ran twice)", k->owner);
+	atomic_fetch_add(&tasks_ran, 1);
+	if (rng_pct(&lt->rng, 40)) {
+		struct timespec ts = { 0, 1000 * (1 + (long)rng_n(&lt->rng, 150)) };
+		nanosleep(&ts, NULL);		/* other loops register tasks of their own meanwhile */
+	}
+	if (k->chain > 0 && !atomic_load(&mt_phase)) {
+		k->chain--;
+		atomic_store(&k->state, 1);
+		atomic_fetch_add(&tasks_registered, 1);
+		iv_task_register(&k->t);
+	} else {
+		atomic_store(&k->state, 0);
+	}
+}
+
+static void tk_register(struct loopthr *lt)
+{
+	int i;
+	for (i = lt->idx; i < MAXTK; i += MAXLOOP) {	/* each loop has its own slots */
+		int exp = 0;
+		if (atomic_compare_exchange_strong(&tks[i].state, &exp, 1)) {
+			IV_TASK_INIT(&tks[i].t);
+			tks[i].t.cookie = &tks[i];
+			tks[i].t.handler = tk_cb;
+			tks[i].owner = lt->idx;
+			tks[i].chain = rng_n(&lt->rng, 3);
+			atomic_fetch_add(&tasks_registered, 1);
+			iv_task_register(&tks[i].t);
+			return;
+		}
+	}
+}
+
+void hk_idle(void)
+{
+	int i;
+	if (atomic_load(&mt_phase))
+		return;
+	for (i = 0; i < MAXEV; i++) {
+		if (atomic_load(&ev[i].state) != 1)
+			continue;
+		if (ev[i].last_post_seq > ev[i].last_entry_seq)
+			mon_viol("C08", "blocked-with-undelivered-post", g_method,
+				 "every thread is blocked (only an unrelated deadline can wake the owner) and event %d of loop %d has an undelivered post (posts %ld, handler entries %ld)",
+				 i, ev[i].owner, (long)ev[i].posts, (long)ev[i].entries);
+	}
+	for (i = 0; i < MAXTK; i++)
+		if (atomic_load(&tks[i].state) == 1)
+			mon_viol("C06", "task-not-run-before-sleep", g_method, "every thread is blocked and a task registered by loop %d has not run", tks[i].owner);
+}
 
 static void scn_quiescent_check(void)
 {
@@ -313,6 +416,7 @@ static void run_case(long id, uint64_t seed)
 	vt_reset_case(case_seed);
 	vt_set_single(0);
 	memset(ev, 0, sizeof(ev));
+	memset(tks, 0, sizeof(tks));
 	atomic_store(&ilv_hash, 0x77);
 	atomic_store(&overlaps, 0);
 	atomic_store(&total_posts, 0);
@@ -381,11 +485,11 @@ int main(int argc, char **argv)
 		run_case(i, seed);
 	mon_printf("STAT method=%s cases=%llu posts=%llu handler_entries=%llu remote_posts=%llu owner_posts=%llu cases_with_overlapping_posts=%llu "
 		   "obligations=%llu discharged=%llu unregistered_while_pending=%llu events_registered=%llu kick_object_recreated=%llu "
-		   "noise_writes=%llu noise_handler_entries=%llu final_quiescences=%llu shim_quiescences=%llu time_advances=%llu perturb_yield=%llu perturb_sleep=%llu threads_created=%llu injected=%llu violations=%d\n",
+		   "noise_writes=%llu noise_handler_entries=%llu tasks_registered=%ld tasks_ran=%ld failed_registrations_under_fault=%ld final_quiescences=%llu shim_quiescences=%llu time_advances=%llu perturb_yield=%llu perturb_sleep=%llu threads_created=%llu injected=%llu violations=%d\n",
 		   g_method, (unsigned long long)S.cases, (unsigned long long)S.posts, (unsigned long long)S.entries,
 		   (unsigned long long)S.remote, (unsigned long long)S.self, (unsigned long long)S.overlaps_cases,
 		   (unsigned long long)S.obligations, (unsigned long long)S.discharged, (unsigned long long)S.unreg_pending,
-		   (unsigned long long)S.regs, (unsigned long long)S.zero_cross, (unsigned long long)noise_writes, (unsigned long long)noise_entries, (long)failed_regs, (unsigned long long)S.quiescences,
+		   (unsigned long long)S.regs, (unsigned long long)S.zero_cross, (unsigned long long)noise_writes, (unsigned long long)noise_entries, (long)tasks_registered, (long)tasks_ran, (long)failed_regs, (unsigned long long)S.quiescences,
 		   (unsigned long long)vt_stats.quiescences, (unsigned long long)vt_stats.time_advances,
 		   (unsigned long long)vt_stats.perturb_yield, (unsigned long long)vt_stats.perturb_sleep,
 		   (unsigned long long)vt_stats.threads_created, (unsigned long long)vt_stats.injected, mon_viol_total);
